@@ -85,4 +85,10 @@ TEXTS = {
                 level_text=("Kernel-checked theorems (Properties/C15.lean): for every class and every rune < 128 the table entry computed by BasicLatinLookup equals the decision of the general matching procedure (C15_table_eq_general), and parseCharClassMatcher returns the same outcome with and without the table for every parser state — ASCII, non-ASCII, invalid byte, end of input (C15_equiv). "
                             "Tie: the tables in the generated cases come from the real builder.BasicLatinLookup and the model driver recomputes each of them (all 128 entries) from the class descriptor; every case of a table variant is also run on the general-path variant of the real generated parser and the results compared."),
                 level_note=RT_NOTE + " unicode.Is is modelled as membership in the range table passed in the case line; unicode.ToLower comes from the stream header."),
+    "C08": dict(technique="differential: real left-recursive parsers vs Lean model (full result) and vs the plain parser of the iterative twin grammar; Lean lemmas on the seed-growing loop",
+                design_ref="DESIGN.md §5 C08",
+                level_text=("Every generated left-recursive case (direct, indirect, nested towers; all 8 LeftRecursion template variants; Memoize on/off) is run on the real generated parser and on the Lean model and compared on the full result (values, errors, stores, block trace); "
+                            "direct left recursion without predicates is additionally run as its iterative twin (b1/../bm)(a1/../an)* on the plain template, which must match exactly the same prefix. Kernel-checked lemmas on the loop of the model: a failing or non-extending growth attempt is dropped with errors and store restored, an extending one becomes the seed, "
+                            "the recursive reference is answered from the seed, adopted growths strictly extend, and termination under a budget (C16_terminates covers left-recursive grammars). The equality 'seed growing = iteration' itself is not proved. Known finding D6 (memo hit drops #{} effects)."),
+                level_note=RT_NOTE + " Level 'other': differential + partial proof."),
 }
